@@ -36,8 +36,12 @@ theorem sstLoad2_inv {st : St} (i : Inv st) : Inv (sstLoad2 st) := by
   cases h : st.sstTemp with
   | none => simpa [h] using i
   | some id =>
-    have hl := i.sst1 id h
-    refine ⟨i.core.remove hl, ?_, ?_⟩
+    refine ⟨?_, ?_, ?_⟩
+    · rcases i.sst1 id h with hl | ⟨hn, hd⟩
+      · exact i.core.remove hl
+      · show Core (erase st.temp Facts.C12.sstTempKey) (erase st.disk id) st.next
+        have e1 : erase st.temp Facts.C12.sstTempKey = st.temp := erase_of_load_none _ _ hn
+        rw [e1, erase_of_not_mem _ _ hd]; exact i.core
     · intro j hj; cases hj
     · intro _; exact load_erase_self st.temp _
 
@@ -59,9 +63,10 @@ theorem sstLoad_inv {st : St} (i : Inv st) : Inv (sstLoad st) := by
     · intro j hj
       have hj' : (readBytes st Facts.C12.sstPath).1.sstTemp = some j := hj
       rw [f.2.2.2] at hj'
-      show load (erase (readBytes st Facts.C12.sstPath).1.temp Facts.C12.sstPath) sstKey = some j
-      rw [f.1, load_erase_ne _ sstKey_ne_sstPath]
-      exact i.sst1 j hj'
+      show load (erase (readBytes st Facts.C12.sstPath).1.temp Facts.C12.sstPath) sstKey = some j ∨
+        (load (erase (readBytes st Facts.C12.sstPath).1.temp Facts.C12.sstPath) sstKey = none ∧ j ∉ keys (erase st.disk id))
+      rw [f.1]
+      exact sst1_erase Facts.C12.sstPath id (i.sst1 j hj') (fun e => sstKey_ne_sstPath e.symm)
     · intro hj
       have hj' : (readBytes st Facts.C12.sstPath).1.sstTemp = none := hj
       rw [f.2.2.2] at hj'
@@ -79,7 +84,7 @@ theorem sstItem_inv {st : St} (i : Inv st) (flat : Blob) : Inv (sstItem st flat)
       refine ⟨i.core.add _ flat (i.sst0 h), ?_, ?_⟩
       · intro j hj
         cases hj
-        exact load_store_self _ _ _
+        exact Or.inl (load_store_self _ _ _)
       · intro hj; cases hj
   · exact i
 
@@ -118,6 +123,35 @@ theorem save_inv {st : St} (i : Inv st) (w : Map Blob) (s : Blob) (o : Map Blob)
   apply foldl_saveCall_inv
   exact i.frame rfl rfl rfl rfl
 
+/-- sheet.go DeleteSheet (repaired): the tempFiles entry of a spilled worksheet is deleted together with its file -/
+theorem forget_inv {st : St} (i : Inv st) (n rels : String) : Inv (forget st n rels) := by
+  have h1 : Facts.C12.deleteSheetDropsTemp = true := by decide
+  have h2 : Facts.C12.deleteSheetRemovesFile = true := by decide
+  unfold forget
+  simp only [h1, h2, if_true]
+  cases ht : load st.temp n with
+  | none => exact i.frame rfl rfl rfl rfl
+  | some id =>
+    simp only []
+    refine ⟨i.core.remove ht, ?_, ?_⟩
+    · intro j hj
+      have hj' : st.sstTemp = some j := hj
+      show load (erase st.temp n) sstKey = some j ∨ (load (erase st.temp n) sstKey = none ∧ j ∉ keys (erase st.disk id))
+      by_cases e : n = sstKey
+      · subst e
+        rcases i.sst1 j hj' with hl | ⟨hn, _⟩
+        · have : id = j := by rw [ht] at hl; exact Option.some.inj hl
+          subst this
+          exact Or.inr ⟨load_erase_self _ _, not_mem_keys_erase _ _⟩
+        · rw [ht] at hn; cases hn
+      · exact sst1_erase n id (i.sst1 j hj') e
+    · intro hj
+      have hj' : st.sstTemp = none := hj
+      show load (erase st.temp n) sstKey = none
+      by_cases e : sstKey = n
+      · subst e; exact load_erase_self _ _
+      · rw [load_erase_ne _ e]; exact i.sst0 hj'
+
 theorem step_inv {st : St} (i : Inv st) (op : Op) : Inv (step st op).1 := by
   cases op with
   | readBytes n => exact readBytes_inv i n
@@ -135,12 +169,7 @@ theorem step_inv {st : St} (i : Inv st) (op : Op) : Inv (step st op).1 := by
   | sstLoad => exact sstLoad_inv i
   | sstSet => exact (sstLoad_inv i).frame rfl rfl rfl rfl
   | save w s o => exact save_inv i w s o
-  | forget n rels =>
-    have h : Facts.C12.deleteSheetDropsTemp = false := by decide
-    show Inv (forget st n rels)
-    unfold forget
-    simp only [h, Bool.false_eq_true, if_false]
-    exact i.frame rfl rfl rfl rfl
+  | forget n rels => exact forget_inv i n rels
 
 theorem run_inv : ∀ (ops : List Op) {st : St}, Inv st → Inv (run st ops).1
   | [], _, i => i
